@@ -300,12 +300,40 @@ class DefaultRender(TypeRender):
         super().__init__(idx, cfg, prop, **kw)
         self.pool = None
 
+    def no_default_probe(self, f):
+        """a union field (or a struct / variant field) that carries its own expression: declared with the probe type
+        that has no Default impl, in half of the configurations"""
+        from render import hpick
+        return f['ty'] != 'nat' and f.get('dflt') == 'expr' and not self.opts.get('dexpr') and hpick(2, self.idx, 'nodefault') == 0
+
     def field_type(self, v, i, f):
         if f['ty'] == 'nat':
             return self.NAT[f['dflt']]
-        return 'PK<%d>' % i
+        return ('PN<%d>' if self.no_default_probe(f) else 'PK<%d>') % i
+
+    def default_value_text(self, v, i, f):
+        if self.no_default_probe(f):
+            return 'probes::pnexpr(%d)' % (10 + i)
+        return super().default_value_text(v, i, f)
+
+    def literal_type_expr(self):
+        """a third of the type-level expressions are a bare literal (`Default(expression = 66)`): the macro converts it
+        with Into, so the type gets a hand-written From<i32> that builds the very value the constructor form builds"""
+        from render import hpick
+        return bool(self.opts.get('dexpr')) and hpick(3, self.idx, 'dexpr-literal') == 0
 
     def type_default_expr(self):
+        if self.literal_type_expr():
+            return '66'
+        return self.type_default_ctor()
+
+    def extra_items(self):
+        out = super().extra_items()
+        if self.literal_type_expr():
+            out += ' impl ::core::convert::From<i32> for %s { fn from(_: i32) -> Self { %s } }' % (self.name, self.type_default_ctor())
+        return out
+
+    def type_default_ctor(self):
         c = self.cfg
         v = len(c['variants'])
         var = c['variants'][v - 1]
@@ -528,6 +556,24 @@ def c14(ctx):
                 requests.append({'id': rid, 'text': text})
                 meta[rid] = {'mode': 'same', 'g': g, 'reset': m == 1}
                 info[rid] = (ci, s, m, text)
+        # one more group per configuration: the canonical rendering next to three renderings in which *every* site takes a
+        # spelling of its own at once (what goes wrong only for a combination of spellings -- a negative hexadecimal rank
+        # *followed by* another parameter -- never shows when one site varies at a time)
+        if any(s['n'] >= 2 for s in sites):
+            n_groups += 1
+            g = 'c%d:*' % ci
+            allsite = {'site': '*', 'cls': 'all sites at once', 'n': 4}
+            for m in range(1, 5):
+                if m == 1:
+                    text = base_text
+                else:
+                    import render as _render
+                    ov = {s['site']: 1 + _render.hpick(s['n'], ci, s['site'], 'mix', m) for s in sites if s['n'] >= 2}
+                    text = MultiRender(ci, cfg, 'C14', overrides=ov, canonical=True).item(derive=False)
+                rid = '%s#%d' % (g, m)
+                requests.append({'id': rid, 'text': text})
+                meta[rid] = {'mode': 'same', 'g': g, 'reset': m == 1}
+                info[rid] = (ci, allsite, m, text)
     ctx.info('%d configurations, %d spelling groups, %d expansions' % (len(recs), n_groups, len(requests)))
     trace, raw = xpipe.run_requests(ctx, exe, requests, meta)
     res = xpipe.validate(ctx, trace)
@@ -550,7 +596,8 @@ def c14(ctx):
         'programs': len(recs), 'evaluations': len(requests), 'distinct_nontrivial': n_groups,
         'rule': 'multi-trait struct/enum configurations with at most MaxDeviations non-default settings (t-way); for every spelling site the specification lists '
                 '(EduceSpell classes: p = v / p(v), ident/path/int/predicate vs string literal, name/rename, expression/expr, Trait = X shorthands, ignore forms, '
-                'one list vs several attributes, trait order, parameter order) one group with every member of the class, everything else canonical; '
+                'one list vs several attributes, trait order, parameter order) one group with every member of the class, everything else canonical; plus one group per '
+                'configuration in which every site is respelled at once (three mixes); '
                 'distinct_nontrivial = number of groups with at least two members',
         'samples': [{'group': requests[0]['id'].split('#')[0], 'members': [r['text'] for r in requests[:4]]}] if requests else [],
     })
